@@ -86,6 +86,27 @@ def run(tier: str, seed: int) -> int:
         core.run_driver('c08_driver.py', ['fixmap', ef, fm_out], env={'VERIF_SEED': seed, 'VERIF_TIER': tier})
         cov['edges_replayed'] += len(fedges)
         edge_total += len(fedges)
+        # 2c. the node-ID protocol (NodeId): every transition on real VMF/Entity objects
+        ncfg = 'NodeId_mc4.cfg' if tier == 'thorough' else 'NodeId_mc.cfg'
+        r = run_tlc('NodeId', ncfg)
+        core.require_mc(r, ncfg)
+        cov['models'][ncfg] = {'generated': r.generated, 'distinct': r.distinct, 'depth': r.depth}
+        cov['states'] += r.distinct
+        cov['transitions'] += r.generated
+        nedges, r = core.dump_edges('NodeId', 'NodeId_edges.cfg')
+        nops = {}
+        for e in nedges:
+            nops[e['a']['op']] = nops.get(e['a']['op'], 0) + 1
+        if not {'construct', 'create', 'copy', 'add', 'remove', 'set', 'del', 'destroy'} <= set(nops):
+            raise core.MachineryError(f'vacuous NodeId model: {nops}')
+        cov['node_actions'] = nops
+        ef = work.path('node_edges.json')
+        ef.write_text(json.dumps(nedges))
+        nd_out = work.path('node.ndjson')
+        core.run_driver('c08_driver.py', ['nodeedges', ef, nd_out], env={'VERIF_SEED': seed, 'VERIF_TIER': tier})
+        cov['edges_replayed'] += len(nedges)
+        edge_total += len(nedges)
+        recs.append(nd_out)
         want = {'create', 'copy', 'detach', 'attach', 'drop', 'fixset', 'fixdel'}
         if not want <= set(actions):
             raise core.MachineryError(f'vacuous model: actions never taken: {want - set(actions)}')
